@@ -115,6 +115,7 @@ structure Tr where
   listener     : Bool               -- a demux listener that matches the packet exists
   rtcpListener : Bool
   observer     : Bool               -- `has_observers`
+  absSendTime  : Bool := false      -- `abs_send_time_extension_id` is set (`set_abs_send_time_extension_id(Some(_))`)
 
 abbrev St := Tid → Tr S
 
@@ -128,12 +129,15 @@ def Tr.key (x : Tr S) : Option KeyId := x.sess.map S.keyOf
 and the events. -/
 
 /-- `send(buf)`: `let Some(session) = session else { if required { Err } else raw send }`;
-with a session the bytes must parse before they are protected (`?` on both). -/
-def sendRawGate (t : Tid) (x : Tr S) (parses : Bool) : Option S.Sess × List Ev :=
+with a session the bytes must parse (`RtpPacket::parse(buf)?`) and, when an abs-send-time extension id is
+configured, the header must take the element (`set_extension(id, ..)?`) before they are protected (`?` on
+protect too): three `Err` exits, none of which emits.  `parses` and `extOk` (does `set_extension` succeed
+on this packet's header) are inputs. -/
+def sendRawGate (t : Tid) (x : Tr S) (parses extOk : Bool) : Option S.Sess × List Ev :=
   match x.sess with
   | none => (none, if x.required then [.ret false] else [.emit t .rtp .clear .loc, .ret true])
   | some se =>
-    if parses then
+    if parses && (!x.absSendTime || extOk) then
       (some (S.protectRtp se).1,
        if (S.protectRtp se).2 then [.emit t .rtp (.prot t (S.keyOf se)) .loc, .ret true] else [.ret false])
     else (some se, [.ret false])
@@ -231,7 +235,7 @@ end
 inductive Op (S : Suite) where
   | installKeys (t : Tid) (k : KeyId)          -- `start_srtp(SrtpSession::new(..k..))`
   | sendRtp (t : Tid)
-  | sendRaw (t : Tid) (parses : Bool)
+  | sendRaw (t : Tid) (parses extOk : Bool)
   | sendRtcp (t : Tid)
   | syncBye (t : Tid)
   | recvRtp (t : Tid) (w : S.W) (video : Bool)
@@ -241,6 +245,8 @@ inductive Op (S : Suite) where
   | close (t : Tid)                            -- `clear_listeners` then `send_rtcp_sync(BYE)`
   /-- (re-)registration of listeners / RTCP listener / observers at any moment -/
   | setFlags (t : Tid) (listener rtcpListener observer : Bool)
+  /-- `set_abs_send_time_extension_id(Some(_) / None)` -/
+  | setAbsSendTime (t : Tid) (on : Bool)
 
 variable {S : Suite}
 
@@ -254,7 +260,7 @@ def own (s : St S) (t : Tid) (g : Option S.Sess × List Ev) : St S × List Ev :=
 def step (s : St S) : Op S → St S × List Ev
   | .installKeys t k => (s.set t { s t with sess := some (S.fresh k) }, [])
   | .sendRtp t => own s t (sendRtpGate t (s t))
-  | .sendRaw t parses => own s t (sendRawGate t (s t) parses)
+  | .sendRaw t parses extOk => own s t (sendRawGate t (s t) parses extOk)
   | .sendRtcp t => own s t (sendRtcpGate t (s t))
   | .syncBye t => own s t (syncByeGate t (s t))
   | .recvRtp t w v => recvRtp s t w v
@@ -263,6 +269,7 @@ def step (s : St S) : Op S → St S × List Ev
   | .clearBridge t => (s.set t { s t with bridge := none }, [])
   | .close t => own (s.set t (closed (s t))) t (syncByeGate t (closed (s t)))
   | .setFlags t l r o => (s.set t { s t with listener := l, rtcpListener := r, observer := o }, [])
+  | .setAbsSendTime t on => (s.set t { s t with absSendTime := on }, [])
 
 /-- state after a sequence of operations -/
 def run (s : St S) : List (Op S) → St S
